@@ -422,3 +422,87 @@ Example C11_limit_ex :
   amp_response (fun x => Some x) 3 200 false [1; 2; 3; 4] = None /\
   amp_response (fun x => Some x) 3 200 true [1] = None.
 Proof. vm_compute. repeat split. Qed.
+
+(* ---------------- one rendezvous object over all its polls ---------------- *)
+(* The client keeps ONE httpRendezvous / ampCacheRendezvous and calls Exchange on it once per snowflake
+   (Model/Rendezvous.v rdv_step/rdv_run: the state is the object's configuration, which no Exchange writes).
+   The correspondence check drives one object through histories of Exchanges with different polls and with transport
+   errors, non-200 answers, Location headers and oversize bodies in between (op seq). *)
+From Snow Require Import Proofs.RendezvousObjectProofs.
+
+(* INVARIANT: no Exchange writes the configuration the constructor left (broker URL, cache URL, front). *)
+Theorem C11_rendezvous_config_invariant :
+  forall (to_unicode to_ascii : bytes -> option bytes) (sha256 : bytes -> bytes) (h34 : bytes -> bool)
+         (armor_decode : bytes -> option bytes) s ev,
+  rs_conf (fst (rdv_step to_unicode to_ascii sha256 h34 armor_decode s ev)) = rs_conf s.
+Proof. exact rdv_step_conf. Qed.
+
+(* Hence the request (and the result) of the Exchange at ANY position of ANY history, from any state of the object,
+   is the function [rdv_request] ([rdv_result]) of the configuration and of that Exchange's poll alone ... *)
+Theorem C11_request_history_independent :
+  forall (to_unicode to_ascii : bytes -> option bytes) (sha256 : bytes -> bytes) (h34 : bytes -> bool)
+         (armor_decode : bytes -> option bytes) s pre ev post,
+  nth_error (snd (rdv_run to_unicode to_ascii sha256 h34 armor_decode s (pre ++ ev :: post))) (length pre)
+  = Some (rdv_request to_unicode to_ascii sha256 h34 (rs_conf s) (ev_poll ev) (ev_cb ev),
+          rdv_result to_unicode to_ascii sha256 h34 armor_decode (rs_conf s) ev).
+Proof. exact rdv_run_at. Qed.
+
+(* ... i.e. what a NEW object with the same configuration does on its first Exchange. *)
+Theorem C11_every_request_is_a_first_request :
+  forall (to_unicode to_ascii : bytes -> option bytes) (sha256 : bytes -> bytes) (h34 : bytes -> bool)
+         (armor_decode : bytes -> option bytes) c pre ev post,
+  nth_error (snd (rdv_run to_unicode to_ascii sha256 h34 armor_decode (rdv_init c) (pre ++ ev :: post))) (length pre)
+  = nth_error (snd (rdv_run to_unicode to_ascii sha256 h34 armor_decode (rdv_init c) [ev])) 0.
+Proof. exact rdv_run_at_is_first. Qed.
+
+Theorem C11_rendezvous_state_irrelevant :
+  forall (to_unicode to_ascii : bytes -> option bytes) (sha256 : bytes -> bytes) (h34 : bytes -> bool)
+         (armor_decode : bytes -> option bytes) s1 s2 evs,
+  rs_conf s1 = rs_conf s2 ->
+  snd (rdv_run to_unicode to_ascii sha256 h34 armor_decode s1 evs) = snd (rdv_run to_unicode to_ascii sha256 h34 armor_decode s2 evs).
+Proof. exact rdv_run_state_irrelevant. Qed.
+
+(* Fronting for EVERY request a fronted object ever makes, after any history (errors included): it connects to the
+   front; the broker is named in the Host header only (HTTP, AMP without cache), resp. the Host header is the AMP cache
+   subdomain computed for that very poll. *)
+Theorem C11_fronting_every_poll :
+  forall (to_unicode to_ascii : bytes -> option bytes) (sha256 : bytes -> bytes) (h34 : bytes -> bool)
+         (armor_decode : bytes -> option bytes) c pre ev post q r,
+  rc_front c <> [] ->
+  nth_error (snd (rdv_run to_unicode to_ascii sha256 h34 armor_decode (rdv_init c) (pre ++ ev :: post))) (length pre) = Some (Some q, r) ->
+  q_connect_host q = rc_front c /\
+  match rc_method c with
+  | MHttp => q_host_header q = b_host (rc_broker c) /\ q_method q = bs "POST"%string /\ q_body q = Some (ev_poll ev)
+  | MAmp None => q_host_header q = b_host (rc_broker c) /\ q_method q = bs "GET"%string /\ q_body q = None
+  | MAmp (Some cu) =>
+      q_method q = bs "GET"%string /\ q_body q = None /\
+      exists u, cache_url to_unicode to_ascii sha256 h34 (amp_pub_url (rc_broker c) (ev_cb ev) (ev_poll ev)) cu (bs "c"%string) = Some u /\
+                q_host_header q = r_host u
+  end.
+Proof. exact rdv_fronted_every_request. Qed.
+
+(* Without a front (and without an AMP cache) every request goes to, and names, the broker. *)
+Theorem C11_unfronted_every_poll :
+  forall (to_unicode to_ascii : bytes -> option bytes) (sha256 : bytes -> bytes) (h34 : bytes -> bool)
+         (armor_decode : bytes -> option bytes) c pre ev post q r,
+  rc_front c = [] -> (rc_method c = MHttp \/ rc_method c = MAmp None) ->
+  nth_error (snd (rdv_run to_unicode to_ascii sha256 h34 armor_decode (rdv_init c) (pre ++ ev :: post))) (length pre) = Some (Some q, r) ->
+  q_connect_host q = b_host (rc_broker c) /\ q_host_header q = b_host (rc_broker c).
+Proof. exact rdv_unfronted_every_request. Qed.
+
+(* non-vacuity: a fronted HTTP object over [ok; transport error; 404; oversize; ok] — five requests of the same shape,
+   the errors are those of their own Exchange only *)
+Example C11_request_history_ex :
+  let b := {| b_scheme := S_HTTPS; b_user := false; b_host := bs "broker.example"; b_hostname := bs "broker.example";
+              b_port := []; b_epath := bs "/" |} in
+  let c := mk_rdv_config b MHttp (bs "front.example") in
+  let rq := fun p => Some {| q_method := bs "POST"; q_scheme := S_HTTPS; q_connect_host := bs "front.example";
+                             q_host_header := bs "broker.example"; q_path := bs "/client"; q_rawquery := []; q_body := Some p |} in
+  rc_front c <> [] /\
+  snd (rdv_run (fun x => Some x) (fun x => Some x) (fun _ => []) h34_runes (fun x => Some x) (rdv_init c)
+         [mk_rdv_event (bs "p1") [] (TxResponse 200 false (bs "r1")); mk_rdv_event (bs "p2") [] TxError;
+          mk_rdv_event (bs "p3") [] (TxResponse 404 false (bs "r3"));
+          mk_rdv_event (bs "p4") [] (TxResponse 200 false (repeat 120 (N.to_nat 100001)));
+          mk_rdv_event (bs "p5") [] (TxResponse 200 false (bs "r5"))])
+  = [(rq (bs "p1"), Some (bs "r1")); (rq (bs "p2"), None); (rq (bs "p3"), None); (rq (bs "p4"), None); (rq (bs "p5"), Some (bs "r5"))].
+Proof. cbv zeta. split; [discriminate|vm_compute; reflexivity]. Qed.
